@@ -204,10 +204,11 @@ def c03_program_search(check, sc, seed, n, stats):
 
 @st.composite
 def reset_program(draw):
-    path = draw(st.sampled_from(["stmt", "destroy", "reuse", "stmt_elem", "reuse_stale"]))
+    path = draw(st.sampled_from(["stmt", "destroy", "reuse", "stmt_elem", "reuse_stale", "destroy_stale"]))
     theta = draw(st.sampled_from([0.5, 1.0, 1.5, 2.0, 2.5]))
     return {"kind": "program", "path": path, "theta": theta, "seed": draw(st.integers(0, 2**31 - 1)),
-            "gate": draw(st.sampled_from(["direct", "fn", "static"])), "which": draw(st.sampled_from(["q", "r[0]", "r[1]"]))}
+            "gate": draw(st.sampled_from(["direct", "fn", "static"])), "which": draw(st.sampled_from(["q", "r[0]", "r[1]"])),
+            "tq": draw(st.booleans()), "tr": draw(st.booleans())}
 
 
 def c04_source(case):
@@ -219,6 +220,12 @@ def c04_source(case):
         body = f"qubit[2] w; qubit b; ry(w[1], {t}); {cx.format(a='w[1]', b='b')} reset w[1]; bit r = measure b; echo(r);"
     elif case["path"] == "destroy":
         body = f"Holder o = new Holder(); qubit b; ry(o.q, {t}); {cx.format(a='o.q', b='b')} destroy o; bit r = measure b; echo(r);"
+    elif case["path"] == "destroy_stale":
+        # the released qubits are read back through handle copies that outlive the object: released = |0>, whether or not the
+        # field is @tracked
+        w = case.get("which", "q")
+        body = (f"Holder o = new Holder(); qubit s = o.{w}; qubit b; ry(o.{w}, {t}); {cx.format(a='o.' + w, b='b')} destroy o; "
+                f"bit r = measure s; echo(r);")
     elif case["path"] == "reuse_stale":
         # copies of the handles outlive the object: the released indices are disturbed (flipped, entangled with a live
         # qubit) before they are handed out again; the re-allocated qubits must still read 0
@@ -227,7 +234,7 @@ def c04_source(case):
     else:
         body = (f"Holder o = new Holder(); qubit b; ry(o.r[1], {t}); {cx.format(a='o.r[1]', b='b')} destroy o; "
                 f"Holder p = new Holder(); h(p.q); bit r = measure b; echo(r);")
-    return qprog.prelude() + "function main() -> void { " + body + " }\n"
+    return qprog.prelude(bool(case.get("tq")), bool(case.get("tr"))) + "function main() -> void { " + body + " }\n"
 
 
 def c04_program_oracle(check, case, sc, stats=None, K=300):
@@ -243,11 +250,11 @@ def c04_program_oracle(check, case, sc, stats=None, K=300):
         return {"why": f"not all shots succeeded: {bad[:1] or r.json_lines()[:1]}", "source": src}
     ones = sum(int(s["echo"][0]) for s in shots)
     p1 = math.sin(float(np.float32(case["theta"])) / 2) ** 2
-    if case["path"] == "reuse_stale":
-        p1 = 0.0  # a re-allocated qubit reads 0 whatever happened to its index while it was free
+    if case["path"] in ("reuse_stale", "destroy_stale"):
+        p1 = 0.0  # a released / re-allocated qubit reads 0 whatever happened to it before
     bound = Z * math.sqrt(K * p1 * (1 - p1)) + 1
     if stats is not None:
-        stats.record(case, 0.05 < p1 < 0.95 or case["path"] == "reuse_stale", sample={"source": src[src.index("function main"):], "p1": p1, "ones": ones, "K": K},
+        stats.record(case, 0.05 < p1 < 0.95 or case["path"] in ("reuse_stale", "destroy_stale"), sample={"source": src[src.index("function main"):], "p1": p1, "ones": ones, "K": K},
                      tags=["program", "path_" + case["path"]])
     if p1 == 0.0:
         bound = 0.0
